@@ -774,6 +774,14 @@ func (ss *SpecSet) ReadSpecFile(path, pkgPrefix string) error {
 					}
 					c.E, c.Src = e, body
 					cur.Clauses = append(cur.Clauses, c)
+				} else if len(f) >= 5 && f[0] == "return" && f[1] == "set" && f[3] == "=" {
+					body := strings.TrimSpace(strings.SplitN(rest, "=", 2)[1])
+					e, err := ParseExpr(body)
+					if err != nil {
+						fail(rc.line, "%v", err)
+						continue
+					}
+					cur.Clauses = append(cur.Clauses, &Clause{Kind: "atreturnset", Site: f[2], E: e, Src: body, File: path, Line: rc.line})
 				} else if len(f) >= 4 && f[0] == "call" && (f[2] == "assert") {
 					c := &Clause{Kind: "atcall", Site: f[1], File: path, Line: rc.line}
 					body := strings.TrimSpace(strings.SplitN(rest, " assert ", 2)[1])
